@@ -151,6 +151,9 @@ def enumerate_faults(world, opts, facts):
     out.append({"class": "config", "kind": "unknown_section"})
     out.append({"class": "config", "kind": "line_before_section"})
     out.append({"class": "config", "kind": "json_format"})
+    # the deprecated JSON format with its optional keys, with content its schema rejects, and with a non-object document
+    for variant in ("full", "generators", "accounting_methods", "schema_invalid", "not_object", "unknown_key"):
+        out.append({"class": "config", "kind": "json_format", "variant": variant})
     out.append({"class": "config", "kind": "truncated"})
     out.append({"class": "config", "kind": "zero_length"})
     out.append({"class": "config", "kind": "binary_garbage"})
@@ -331,6 +334,22 @@ def apply_fault(world, opts, fault):
         elif kind == "json_format":
             doc = {"in_header": world["headers"]["IN"], "out_header": world["headers"]["OUT"], "intra_header": world["headers"]["INTRA"],
                    "assets": world["assets"], "exchanges": world["exchanges"], "holders": world["holders"]}
+            variant = fault.get("variant")
+            gens = ["open_positions", "rp2_full_report"]
+            sched = {str(y): m for y, m in (world.get("methods") or [[2020, "fifo"], [2022, "lifo"]])}
+            if variant == "full":
+                doc.update({"generators": gens, "accounting_methods": sched})
+            elif variant == "generators":
+                doc["generators"] = gens
+            elif variant == "accounting_methods":
+                doc["accounting_methods"] = sched
+            elif variant == "schema_invalid":
+                doc["in_header"] = dict(doc["in_header"], timestamp=-1)
+                doc["assets"] = []
+            elif variant == "not_object":
+                doc = [doc]
+            elif variant == "unknown_key":
+                doc["frobnicate"] = {"x": [1, 2, 3]}
             config_text = json.dumps(doc, indent=2)
         elif kind == "truncated":
             lines = text.splitlines(True)
